@@ -68,7 +68,40 @@ func runC18(c *Ctx) {
 	c18Families(c)
 	c18Chaining(c, dcs)
 	c18OptionOrder(c)
+	c18Refresh(c)
 	c15ResolverRotation(c)
+}
+
+// c18Refresh: with a positive TTL the cache is refreshed by a goroutine calling Resolver.Refresh(true):
+// entries used since the last tick are re-resolved and the others are dropped (and resolved afresh
+// when next dialled). Refresh(false) keeps unused entries for ever without re-resolving them.
+func c18Refresh(c *Ctx) {
+	const rule = "DNSCaching's refresh goroutine calls dnscache.Resolver.Refresh(true) on every tick: no cache entry outlives one refresh interval without being re-resolved"
+	key := "dns-refresh:lib.DNSCaching"
+	var calls []*ssa.Call
+	for _, fn := range c.P.RepoFuncs("lib") {
+		eachInstr(fn, func(i ssa.Instruction) {
+			if call, ok := i.(*ssa.Call); ok && strings.HasSuffix(callName(&call.Call), "dnscache.Resolver).Refresh") {
+				calls = append(calls, call)
+			}
+		})
+	}
+	if len(calls) == 0 {
+		c.Fail(key, rule, "the DNS cache is never refreshed", c.fnAt(c.P.Func("lib", "DNSCaching")))
+		return
+	}
+	ok, why := true, ""
+	var sites []string
+	for _, call := range calls {
+		sites = append(sites, c.at(call))
+		if b, isB := constBool(call.Call.Args[1]); !isB || !b {
+			ok, why = false, "Refresh is not called with clearUnused=true: entries of hosts not dialled during one interval stay in the cache with their old addresses and are never re-resolved"
+		}
+		if loopHeaderOf(call.Block()) == nil {
+			ok, why = false, "Refresh is not called periodically (not inside the ticker loop)"
+		}
+	}
+	c.Check(ok, key, rule, "Refresh(true) in the ticker loop", why, sites...)
 }
 
 func isLookupHostResult(v ssa.Value) bool {
@@ -378,6 +411,9 @@ func c18Rotation(c *Ctx, dcs []dialClosure) {
 			why = "the round-robin counter is not advanced atomically"
 		}
 		var pick ssa.Value
+		if ok && loopHeaderOf(ops[0].Block()) != nil {
+			ok, why = false, "the mapping is consulted in a loop (a replacement that is itself a source address is translated again: the first-level replacements no longer receive an even share)"
+		}
 		if ok {
 			if d, isD := constInt(ops[0].Call.Args[1]); !isD || d != 1 {
 				ok, why = false, "the counter does not advance by one"
